@@ -13,6 +13,8 @@ Static clauses decided (necessary conditions of C34):
          excluded; can_view is view-or-edit.
  JSON    in Database.to_json every object that is serialised (added to the emitted `objects` table, or referenced from the
          data) passed `can_view(user, obj)` whose failure raises PermissionError; user_has_no_rights_to_see never returns.
+ GETTER  group / role / label getters are applied only to arguments of the classes they were registered for (every class filter of the
+         registration guards the call, whatever the other filter says).
  STALE   the per-thread group/role caches consulted by has_perm are cleared on every way out of a db_session
          (_commit_or_rollback clears them in its finally block, also when commit or rollback raises), so a later session
          never decides with another session's memberships.
@@ -136,9 +138,37 @@ def run(ctx):
         f = repo.fn(CORE, fq)
         ok = any(isinstance(x, ast.Attribute) and x.attr == cname and dotted(x.value) == 'local' for x in walk_no_nested(f.node))
         ctx.ob('C34-STALE.membership-cache-is-thread-local', f, cname, ok, '' if ok else '%s does not use local.%s' % (fq, cname))
+    # ---------------------------------------------------------------- GETTER
+    # a getter registered for (user class, object class) contributes groups / roles / labels only to arguments of those classes: for every
+    # class filter of the registration, the scenario "filter given and the argument is NOT an instance" cannot reach the call of the getter
+    from ..typestate import eval_test
+    ngt = 0
+    for q, filters in (('get_user_groups', [('cls', 'user')]), ('get_user_roles', [('user_cls', 'user'), ('obj_cls', 'obj')]), ('get_object_labels', [('obj_cls', 'obj')])):
+        f = repo.fn(CORE, q); g = cg.cfg(f)
+        calls = nodes_calling(g, lambda c: isinstance(c.func, ast.Name) and c.func.id == 'func')
+        ctx.need(bool(calls), 'C34-GETTER: call of the registered getter not found in %s' % q)
+        for cv, av in filters:
+            ngt += 1
+            def atom(text, node, cv=cv, av=av):
+                t = text.replace(' ', '')
+                if t == cv + 'isNone': return False
+                if t == 'isinstance(%s,%s)' % (av, cv): return False
+                return None
+            def edge_ok(x, y, lab):
+                n_ = g.nodes[x]
+                if n_.kind != 'test' or lab not in ('T', 'F'): return True
+                v = eval_test(n_.ast, atom)
+                return v is None or v == (lab == 'T')
+            r = g.reach([g.entry], edge_ok=edge_ok)
+            bad = [c for c in calls if c.id in r]
+            ctx.ob('C34-GETTER.class-filter-of-the-registration-is-honoured', f, calls[0].ast, not bad,
+                   '' if not bad else 'the getter registered with %s is still called when `%s` is not an instance of it (the other filter short-circuits the test): its groups/roles/labels '
+                   'leak onto arguments of other classes and has_perm grants what the declared rules do not' % (cv, av), node=calls[0].ast).key += '::' + cv
+    ctx.floor('C34-GETTER', ngt, 4, 'class filters of getter registrations')
 
 
 MUTANTS = [
+    dict(id='C34-gt1', file='pony/orm/core.py', fn='get_user_roles', old="        if user_cls is None or isinstance(user, user_cls):\n            if obj_cls is None or isinstance(obj, obj_cls):\n", new="        if user_cls is None or isinstance(user, user_cls) and (obj_cls is None or isinstance(obj, obj_cls)):\n            if True:\n", expect='C34-GETTER'),
     dict(id='C34-g1', file='pony/orm/core.py', fn='DBSessionContextManager._wrap_coroutine_or_generator_function', old="                    local.db_session = None\n                    local.user_groups_cache.clear()\n                    local.user_roles_cache.clear()\n", new="                    local.db_session = None\n", expect='C34-STALE.leaving'),
     dict(id='C34-m1', file='pony/orm/core.py', fn='has_perm', old='                for reverse_rule in reverse_rules:', new='                for reverse_rule in access_rules:', expect='C34-PROV'),
     dict(id='C34-m2', file='pony/orm/core.py', fn='has_perm', old='            if entity in rule.entities_to_exclude: continue', new='            if x in rule.entities_to_exclude: continue', expect='C34-PROV.exclusion'),
